@@ -274,6 +274,19 @@ def check(rep: Report, ctx: Ctx) -> None:
     from .c10 import link_root_agreement
     link_root_agreement(rep, ctx, "R11.9")
 
+    # ---- R11.10 --------------------------------------------------------------
+    # remove_inconsistent_jobs finds a broken trace only through its link
+    # rows: a link that is queued apart from its span is dropped when the
+    # next batch goes through the duplicate filter (which rebuilds the links
+    # from that batch's spans), and the span with the missing parent survives
+    # cleaning (seed C11-y)
+    rep.rule("R11.10", "the link row of a span with a missing parent reaches "
+             "the store: span and link are queued together and flushed "
+             "together (= C10 R10.5)", 6)
+    from . import c10 as _c10
+    from .util import borrow
+    borrow(rep, ctx, _c10, "C10", "R10.5", "R11.10")
+
 
 def bounds_writers(rep: Report, ctx: Ctx, rule: str) -> None:
     """(shared with C15)  Only save_data (and the constructor) assign the
